@@ -280,7 +280,11 @@ DECIDED = [
     "make_complex: same coefficients, same tolerance",
     "legendre_zeros / laguerre_zeros (unit zeros, real instantiation; the constructors and roots() through their proved contracts only): n == 0 -> Ok(empty); n == 1 -> Ok([0]) / Ok([1]) (the exact zero of P_1 / L_1); "
     "n >= 2 with a non-negligible leading coefficient: an Ok result has exactly n entries (the constructor returns n + 1 coefficients and its own tolerance, roots() returns degree-many numbers, "
-    "the real-part / snap-to-zero map keeps the count); no unwrap, index or arithmetic overflow can fail",
+    "the real-part / snap-to-zero map keeps the count), and entry i is the real part of the i-th number that roots() returned for the constructor's polynomial, "
+    "replaced by 0 exactly when its modulus is below the tolerance (constructors and roots() read as deterministic functions of their arguments); no unwrap, index or arithmetic overflow can fail",
+    "hermite_zeros (unit zeros): n == 0 -> Ok(empty); n == 1 -> Ok([0]); an Ok result has exactly n entries -- one asymptotic starting guess, one Newton solve on the deflated polynomial, "
+    "one deflation by the monic linear factor and one polishing solve on the ORIGINAL polynomial per zero; every divide() call meets the precondition proved for it in C12 "
+    "(well-formed dividend with positive tolerance, divisor with leading coefficient 1), every newton_polynomial call its precondition",
     "Polynomial::roots at the REAL instantiation (N = f64, unit roots_real; the complex polynomial type appears there through contracts only, its roots() contract being the one "
     "proved in unit roots): same clauses -- count, refusal of a negligible leading coefficient, degree 1 exact, degree 2: the two numbers are (-b +- s)/(2a) with s the COMPLEX square root "
     "of the real discriminant read as (d, 0) (so a negative discriminant gives the conjugate pair, not NaN), degree >= 3 as above",
@@ -288,8 +292,8 @@ DECIDED = [
 NOT_DECIDED = [
     "that the returned numbers of degree >= 3 are roots to within a tolerance-scaled residual, match the true roots one-to-one, come in conjugate pairs, and that the result is Ok for separated roots "
     "(convergence of Laguerre / Newton iterations: analytic, no contract over exact reals expresses it); newton_result is the C08 contract (a Newton update of size <= tol), not a residual bound",
-    "legendre_zeros / laguerre_zeros: that the n numbers are distinct and lie inside the orthogonality interval (follows from accuracy of roots(), not decided); "
-    "hermite_zeros: not under contract (its deflation loop needs the tolerance of hermite()'s result, which the product contract of multiply() does not carry); bounded probe only",
+    "legendre_zeros / laguerre_zeros / hermite_zeros: that the n numbers are zeros of the classical polynomial, distinct and inside the orthogonality interval "
+    "(accuracy / convergence of roots() and of the Newton-deflation loop: not decided; bounded probe c14 checks it for n <= 12)",
     "floating-point effects (tolerance near rounding noise)",
 ]
 ASSUMPTIONS = [
@@ -299,6 +303,9 @@ ASSUMPTIONS = [
     "(precondition lead_kept: the property's 'non-negligible leading coefficient'): restated in units roots / roots_real, PROVED in unit divide_complex (the C12 unit, re-run here)",
     "unit zeros: legendre(n, tol) / laguerre(n, tol) restated as 'Ok, n + 1 coefficients, tolerance tol, coefficient n is fam_lead(n)' (consequences of the contracts proved in C18, which gained the tolerance clause for this); "
     "roots() at the real instantiation restated with its count clause (proved in unit roots_real); the precondition |fam_lead(n)| > poly_tol is the property's non-negligible leading coefficient; "
+    "hermite(n, tol) restated as 'Ok, n + 1 coefficients, tolerance tol' (C18; the tolerance clause needs the helper clause 'a product carries the tolerance of one of its operands', verified for multiply() in the C18 unit); "
+    "divide() at the real instantiation restated with the clauses proved in C12 unit divide (Euclidean step Ok, quotient well-formed, not longer than the dividend, dividend's tolerance); newton_polynomial restated with its precondition only (C08); "
+    "rule R38: the two f32 constants of hermite_zeros' asymptotic starting guesses (3.3721 / 6^(1/3), 1/3) are opaque values (their values do not enter the contract); Polynomial::clone = same coefficients and tolerance",
     "rule R37: the public field `c.re` of num_complex read through the shim's accessor; vstd's specifications of VecDeque::iter, Iterator::map and collect",
     "VecDeque::from(Vec) shim (same elements); `polynomial![a, b]` expanded as its macro definition (R18)",
     "NRA side lemmas lemma_quad_plus / lemma_quad_minus discharged by z3 and cvc5, used as external_body proof fns",
@@ -318,25 +325,63 @@ impl Polynomial {
 // the leading coefficient c(n, n) of family `fam` (0 Legendre, 2 Laguerre): the value C18 proves coefficient n of the constructor's result to have
 // (leg_c(n, n) of the three-term recurrence; (-1)^n / n! for Laguerre).  Abstract here: only "the constructor returns it" and "it is not negligible" are used.
 pub uninterp spec fn fam_lead(fam: int, n: nat) -> real;
+// the constructors and roots() are deterministic functions of their arguments (no interior state): their Ok values as spec functions
+pub uninterp spec fn fam_poly(fam: int, n: nat, tol: real) -> Polynomial;
+pub uninterp spec fn roots_val(p: Polynomial, tol: real, n_max: int) -> Seq<(real, real)>;
 // constructors: CONTRACTS ONLY (consequences of the contracts proved in C18, unit special)
 #[verifier::external_body]
 pub fn legendre(n: u32, tol: R) -> (res: Result<Polynomial, String>)
     requires tol@ > 0real, n <= 0x3fff_ffff
-    ensures res is Ok, res->Ok_0.coefficients@.len() == n + 1, res->Ok_0.tolerance == tol, res->Ok_0.coefficients@[n as int]@ == fam_lead(0, n as nat)
+    ensures res is Ok, res->Ok_0.coefficients@.len() == n + 1, res->Ok_0.tolerance == tol, res->Ok_0.coefficients@[n as int]@ == fam_lead(0, n as nat),
+        res->Ok_0 == fam_poly(0, n as nat, tol@)
 { unimplemented!() }
 #[verifier::external_body]
 pub fn laguerre(n: u32, tol: R) -> (res: Result<Polynomial, String>)
     requires tol@ > 0real, n < 0x3fff_ffff
-    ensures res is Ok, res->Ok_0.coefficients@.len() == n + 1, res->Ok_0.tolerance == tol, res->Ok_0.coefficients@[n as int]@ == fam_lead(2, n as nat)
+    ensures res is Ok, res->Ok_0.coefficients@.len() == n + 1, res->Ok_0.tolerance == tol, res->Ok_0.coefficients@[n as int]@ == fam_lead(2, n as nat),
+        res->Ok_0 == fam_poly(2, n as nat, tol@)
 { unimplemented!() }
 impl Polynomial {
     // roots() at the real instantiation: CONTRACT ONLY (clauses proved in unit roots_real)
     #[verifier::external_body]
     pub fn roots(&self, tol: R, n_max: usize) -> (res: Result<VecDeque<C>, String>)
         requires self.wf(), tol@ > 0real, self.lead_kept()
-        ensures res is Ok && self.coefficients@.len() >= 2 ==> res->Ok_0@.len() == self.coefficients@.len() - 1
+        ensures res is Ok && self.coefficients@.len() >= 2 ==> res->Ok_0@.len() == self.coefficients@.len() - 1,
+            res is Ok ==> res->Ok_0@.len() == roots_val(*self, tol@, n_max as int).len() && forall|i: int| 0 <= i < res->Ok_0@.len() ==> (#[trigger] res->Ok_0@[i])@ == roots_val(*self, tol@, n_max as int)[i]
     { unimplemented!() }
 }
+#[verifier::external_body]
+pub fn hermite(n: u32, tol: R) -> (res: Result<Polynomial, String>)
+    requires tol@ > 0real, n <= 0x3fff_ffff
+    ensures res is Ok, res->Ok_0.coefficients@.len() == n + 1, res->Ok_0.tolerance == tol
+{ unimplemented!() }
+impl Clone for Polynomial {
+    #[verifier::external_body]
+    fn clone(&self) -> (r: Polynomial) ensures r.coefficients@ == self.coefficients@, r.tolerance == self.tolerance { unimplemented!() }
+}
+impl Polynomial {
+    // restated from C13 (from_slice: coefficients in reverse order of the slice) and C12 (unit divide: a Euclidean step by a divisor of degree >= 1 is Ok,
+    // quotient well-formed, no longer than the dividend, with the dividend's tolerance)
+    #[verifier::external_body]
+    pub fn from_slice(data: &[R]) -> (r: Polynomial) ensures r.coefficients@.len() == (if data@.len() == 0 { 1 } else { data@.len() }),
+        forall|i: int| 0 <= i < data@.len() ==> r.coefficients@[i]@ == data@[data@.len() - 1 - i]@ { unimplemented!() }
+    #[verifier::external_body]
+    pub fn divide(&self, divisor: &Polynomial) -> (res: Result<(Polynomial, Polynomial), String>)
+        requires self.wf(), divisor.wf(), self.tolerance@ > 0real,
+            divisor.coefficients@.len() >= 2 ==> divisor.coefficients@[divisor.coefficients@.len() - 1]@ != 0real,
+            self.coefficients@.len() + divisor.coefficients@.len() < usize::MAX / 2
+        ensures divisor.coefficients@.len() >= 2 ==> res is Ok && res->Ok_0.0.wf() && res->Ok_0.0.tolerance == self.tolerance
+            && res->Ok_0.0.coefficients@.len() <= self.coefficients@.len()
+    { unimplemented!() }
+}
+// newton_polynomial at the real instantiation: CONTRACT ONLY (proved in C08, unit scalar); only its precondition matters here
+#[verifier::external_body]
+pub fn newton_polynomial(initial: R, poly: &Polynomial, tol: R, n_max: usize) -> (res: Result<R, String>)
+    requires poly.wf()
+{ unimplemented!() }
+// the two constants of the asymptotic starting guesses (3.3721 / 6^(1/3) and 1/3, computed in f32): their VALUES are not modelled
+#[verifier::external_body]
+pub fn vx_guess_constant(which: u8) -> (r: R) { unimplemented!() }
 // what the zero finders make of one complex root: its real part, snapped to 0 when within the tolerance
 pub open spec fn snapped(c: (real, real), tol: real) -> real { if rabs(c.0) < tol { 0real } else { c.0 } }
 '''
@@ -344,6 +389,7 @@ pub open spec fn snapped(c: (real, real), tol: real) -> real { if rabs(c.0) < to
 
 def zeros_cfg():
     c = cfg_real()
+    c.polynomial_macro_type = "Polynomial"       # hermite_zeros builds the REAL linear factor x - zero
     return c
 
 
@@ -361,7 +407,23 @@ def zeros_unit():
         f.ens("n == 0 ==> res is Ok && res->Ok_0@.len() == 0",
               f"n == 1 ==> res is Ok && res->Ok_0@.len() == 1 && res->Ok_0@[0]@ == {one}",
               # exactly n numbers
-              "res is Ok ==> res->Ok_0@.len() == n")
+              "res is Ok ==> res->Ok_0@.len() == n",
+              # entry i is the real part of the i-th number roots() returned for the constructor's polynomial, snapped to 0 when within the tolerance
+              f"n >= 2 && res is Ok ==> forall|i: int| 0 <= i < n ==> (#[trigger] res->Ok_0@[i])@ == snapped(roots_val(fam_poly({fam}, n as nat, poly_tol@), tol@, n_max as int)[i], tol@)")
+        f.closure(1, params="c: &C", ret="vx_y: R", ensures=["vx_y@ == snapped((*c)@, tol@)"])
         # R37: num_complex's public field `re` read through the shim's accessor (the shim keeps its components ghost)
         f.opt(subst=[("c.re", "(*c).real()", "R37-complex-field-re")])
+    h = u.fn(SFILE, "hermite_zeros")
+    h.req("tol@ > 0real", "poly_tol@ > 0real", "n <= 0x3fff_fffe")
+    h.ens("n == 0 ==> res is Ok && res->Ok_0@.len() == 0",
+          "n == 1 ==> res is Ok && res->Ok_0@.len() == 1 && res->Ok_0@[0]@ == 0real",
+          # exactly n numbers: one starting guess, one deflation and one polishing step per zero
+          "res is Ok ==> res->Ok_0@.len() == n")
+    h.opt(subst=[("N::from_f32(3.3721 / 6.0.cbrt()).unwrap()", "vx_guess_constant(0u8)", "R38-guess-constant"),
+                 ("N::from_f32(1.0 / 3.0).unwrap().real()", "vx_guess_constant(1u8)", "R38-guess-constant"),
+                 ("let mut zeros = Vec::with_capacity(", "let mut zeros: Vec<R> = Vec::with_capacity(", "R10-type-annotation"),
+                 ("let mut zs = Vec::with_capacity(", "let mut zs: Vec<R> = Vec::with_capacity(", "R10-type-annotation")])
+    h.loop(1, iter="it", invariant=["zeros@.len() == it.index@", "n >= 2"])
+    h.loop(2, iter="it2", invariant=["zs@.len() == it2.index@", "zeros@.len() == n", "poly.wf()", "deflator.wf() && deflator.tolerance@ > 0real",
+                                      "deflator.coefficients@.len() <= n + 1", "n <= 0x3fff_fffe"])
     return u
